@@ -122,10 +122,19 @@ int main(int argc, char **argv) {
     std::ifstream sf("simout1", std::ios::binary); std::string echoed((std::istreambuf_iterator<char>(sf)), std::istreambuf_iterator<char>());
     if (tr == 0) { t_off = rc; e_off = echoed; c_off = cons; } else { t_on = rc; e_on = echoed; c_on = cons; }
   }
+  // (6) a READ from a stream file (simin1 holds "a"): the byte read, hence the exit value, must not depend on host memory
+  { std::ofstream si("simin1", std::ios::binary); si << "a"; }
+  std::vector<uint8_t> p6 = {0x97, 0, 0, 0, 100, 0, 0, 0,                 // BR +7 ; DATA 100 (sp)
+     0x11, 0xE1, 0xE0, 0x30, 0x82, 0x32, 0xD3,                             // LDBM 1; LDAC 256; STAI 2 (stream 256); LDAC 2; OPR SVC -> mem[sp+1] = byte
+     0x01, 0x61, 0x11, 0x82, 0x30, 0xD3};                                  // LDAM 1; LDAI 1; LDBM 1; STAI 2; LDAC 0; OPR SVC -> exit(byte)
+  std::string f6 = writeImage("p6.bin", p6);
+  alarm(60); g_phase = "a run reading a stream file";
+  int a6 = runOn(0xA5, f6, 1000, o), b6 = runOn(0x00, f6, 1000, o), c6 = runOn(0x01, f6, 1000, o);
   // (5) every word outside the loaded image is zero after construction over dirty storage + load (whole array scanned)
   long s5 = scanOn(0xA5, f1, (p1.size() + 3) / 4);
   std::string why;
-  if (lim_off != lim_on) why = "a run cut short by --max-cycles returns a different status with tracing on";
+  if (a6 != b6 || a6 != c6 || a6 != 'a') why = "a byte read from a stream file (simin1 = 'a') depends on host memory: exit values " + std::to_string(a6) + ", " + std::to_string(b6) + ", " + std::to_string(c6) + " over 0xA5 / 0x00 / 0x01 storage";
+  else if (lim_off != lim_on) why = "a run cut short by --max-cycles returns a different status with tracing on";
   else if (s5 >= 0) why = "memory word " + std::to_string(s5) + " outside the loaded image is not zero after construction over dirty storage (reads of it depend on host memory)";
   else if (threw || t_off != t_on || e_off != e_on || c_off != c_on) why = "enabling tracing changes exit value, echoed bytes or input consumption of a program using the read call";
   else if (a3 != b3 || a3 != c3 || a3 != d3) why = "exit value of a binary cut short depends on host heap contents";
